@@ -1244,3 +1244,127 @@ Proof.
   split; [exact Dfl|]. split; [exact Dmc|]. split; [exact Dne|]. intros j _.
   destruct (Dj j I) as (E1 & E2 & E3). rewrite S1 in E1, E2. split; [exact E1|]. split; [exact E2|exact E3].
 Qed.
+
+(* ================================================================== *)
+(* Part 3b: "two incremental cost models agree"                          *)
+Definition tree_ok (n : net) (sl : list slinfo) (t : tree) : Prop :=
+  NoDup (output n) /\ forall bt, In bt (traverse_dfs t) -> legs_involved n sl bt.
+
+Lemma post_sub_nodes t : forall t', In t' (post_sub t) -> exists l r, t' = Node l r.
+Proof.
+  induction t as [k|l IHl r IHr]; cbn [post_sub]; intros t'; [intros []|].
+  rewrite !in_app_iff. intros [H|[H|[<-|[]]]]; [apply IHl, H|apply IHr, H|exists l, r; reflexivity].
+Qed.
+
+Lemma traverse_dfs_nodes t bt : In bt (traverse_dfs t) -> exists l r, snd bt = Node l r.
+Proof.
+  destruct t as [k|l r]; cbn [traverse_dfs]; [intros []|].
+  rewrite in_app_iff. intros [H|[<-|[]]].
+  - apply in_map_iff in H. destruct H as (t' & <- & Hin). cbn [snd].
+    apply in_app_iff in Hin. destruct Hin as [Hin|Hin]; [apply (post_sub_nodes l), Hin|apply (post_sub_nodes r), Hin].
+  - exists l, r. reflexivity.
+Qed.
+
+Lemma lkeys_filter_incl (f : ix * nat -> bool) d : incl (lkeys (filter f d)) (lkeys d).
+Proof.
+  unfold lkeys. intros j Hj. apply in_map_iff in Hj. destruct Hj as (kv & <- & Hin).
+  apply filter_In in Hin. apply in_map, Hin.
+Qed.
+
+(* it is enough that the declared output is duplicate free and involved at the root *)
+Lemma tree_ok_from_root n sl t : NoDup (output n) ->
+  incl (lkeys (root_legs n sl)) (lkeys (involved n sl t)) -> tree_ok n sl t.
+Proof.
+  intros ND Hroot. split; [exact ND|]. intros bt Hbt.
+  destruct t as [k|l r]; cbn [traverse_dfs] in Hbt; [destruct Hbt|].
+  apply in_app_iff in Hbt. destruct Hbt as [H|[<-|[]]].
+  - apply in_map_iff in H. destruct H as (t' & <- & Hin). unfold legs_involved. cbn [fst snd].
+    assert (Hn : exists l' r', t' = Node l' r').
+    { apply in_app_iff in Hin. destruct Hin as [Hin|Hin]; [apply (post_sub_nodes l), Hin|apply (post_sub_nodes r), Hin]. }
+    destruct Hn as (l' & r' & ->). cbn [node_legs sub_legs involved]. apply lkeys_filter_incl.
+  - unfold legs_involved. cbn [fst snd node_legs]. exact Hroot.
+Qed.
+
+Lemma tree_ok_snoc n sl t x p : tree_ok n sl t -> tree_ok n (sl ++ [mkSl x p]) t.
+Proof. intros [ND H]. split; [exact ND|]. intros bt Hbt. apply legs_involved_snoc, H, Hbt. Qed.
+
+Lemma tree_rows_ok n sl t : tree_ok n sl t -> Forall (row_ok (szd n)) (tree_rows n sl t).
+Proof.
+  intros [ND H]. unfold tree_rows. apply Forall_map. apply Forall_forall. intros bt Hbt.
+  apply row_of_ok; [exact ND|apply (traverse_dfs_nodes t), Hbt|apply H, Hbt].
+Qed.
+
+Theorem tree_rows_snoc n sl t x p : tree_ok n sl t -> 0 < zget x (szd n) ->
+  tree_rows n (sl ++ [mkSl x p]) t = map (row_remove x (zget x (szd n))) (tree_rows n sl t).
+Proof.
+  intros [ND H] Hd. unfold tree_rows. rewrite map_map. apply map_ext_in. intros bt Hbt.
+  apply row_of_snoc; [exact ND|apply (traverse_dfs_nodes t), Hbt|apply H, Hbt|exact Hd].
+Qed.
+
+Definition sd_rel (n : net) (done : list ix) (c : costs) : Prop :=
+  forall j, zd_get j (c_sd c) = if memb j done then None else zd_get j (szd n).
+
+Lemma memb_app j (a b : list nat) : memb j (a ++ b) = memb j a || memb j b.
+Proof. unfold memb. apply existsb_app. Qed.
+
+Lemma remove_seq_tree n t : sd_pos (szd n) ->
+  forall xs sl done c c', tree_ok n sl t -> Inv c -> c_tab c = tree_rows n sl t -> sd_rel n done c ->
+    remove_seq xs c = Some c' ->
+    c_tab c' = tree_rows n (sl ++ slice_all xs) t /\ Inv c' /\
+    c_nsl c' = c_nsl c * zprod (map (fun x => zget x (szd n)) xs) /\ c_orig c' = c_orig c /\
+    sd_rel n (done ++ xs) c' /\ NoDup xs /\
+    (forall x, In x xs -> ~ In x done /\ In x (zd_keys (szd n))).
+Proof.
+  intros Hpos. induction xs as [|x xs IH]; intros sl done c c' Hok Hinv Htab Hrel Hseq; cbn [remove_seq] in Hseq.
+  - injection Hseq as <-. cbn [slice_all map]. rewrite !app_nil_r. rewrite zprod_nil.
+    repeat (split; [first [assumption|lia|constructor]|]). intros x [].
+  - destruct (remove x c) as [c1|] eqn:Er; [|discriminate].
+    destruct (remove_spec x c c1 Hinv Er) as (Ed & T1 & S1 & N1 & O1 & I1). cbn zeta in *.
+    assert (Hxd : memb x done = false).
+    { destruct (memb x done) eqn:E; [|reflexivity]. specialize (Hrel x). rewrite E in Hrel. congruence. }
+    assert (Hxs : zd_get x (szd n) = Some (zget x (c_sd c))).
+    { specialize (Hrel x). rewrite Hxd in Hrel. congruence. }
+    assert (Hd : zget x (szd n) = zget x (c_sd c)) by (apply zd_get_zget, Hxs).
+    assert (Hp : 0 < zget x (szd n)) by (apply sd_pos_zget, Hpos).
+    assert (Htab1 : c_tab c1 = tree_rows n (sl ++ [mkSl x None]) t).
+    { rewrite T1, Htab, <- Hd. symmetry. apply tree_rows_snoc; assumption. }
+    assert (Hrel1 : sd_rel n (done ++ [x]) c1).
+    { intros j. rewrite S1, memb_app. cbn [memb existsb]. rewrite orb_false_r.
+      destruct (Nat.eqb_spec j x) as [->|Hne].
+      - rewrite orb_true_r. apply zd_get_del_same. apply Hinv.
+      - rewrite orb_false_r. rewrite zd_get_del_other by exact Hne. apply Hrel. }
+    destruct (IH (sl ++ [mkSl x None]) (done ++ [x]) c1 c' (tree_ok_snoc n sl t x None Hok) I1 Htab1 Hrel1 Hseq)
+      as (T2 & I2 & N2 & O2 & R2 & ND2 & H2).
+    cbn [slice_all map]. rewrite <- app_assoc in T2, R2. cbn [app] in T2, R2.
+    split; [exact T2|]. split; [exact I2|].
+    split; [rewrite N2, N1, zprod_cons, Hd; ring|]. split; [congruence|]. split; [exact R2|].
+    split.
+    + constructor; [|exact ND2]. intros Hin. destruct (H2 x Hin) as [Hnd _]. apply Hnd, in_app_iff. right; left; reflexivity.
+    + intros y [<-|Hy].
+      * split; [apply memb_false, Hxd|]. apply zd_get_in_keys. congruence.
+      * destruct (H2 y Hy) as [Hnd Hk]. split; [|exact Hk]. intros Hyd. apply Hnd, in_app_iff. left; exact Hyd.
+Qed.
+
+Lemma tree_rows_flops n sl t : zsum (map r_flops (tree_rows n sl t)) = sum_flops n sl t.
+Proof. unfold tree_rows, sum_flops. rewrite map_map. reflexivity. Qed.
+
+(* C07 main theorem about the cost model: after ANY sequence of removals that the
+   model accepts, the table is the table of the tree sliced on those indices, every
+   derived field equals its from-scratch definition on that table (Inv), nslices is
+   the product of the removed dimensions, and original_flops is still the incoming
+   tree's flops *)
+Theorem costs_remove_eq_tree_remove n sl0 t : tree_ok n sl0 t -> sd_pos (szd n) -> NoDup (zd_keys (szd n)) ->
+  forall xs c, remove_seq xs (costs_of_tree n sl0 t) = Some c ->
+    c_tab c = tree_rows n (sl0 ++ slice_all xs) t /\ Inv c /\
+    c_nsl c = zprod (map (fun x => zget x (szd n)) xs) /\ c_orig c = sum_flops n sl0 t /\
+    sd_rel n xs c /\ NoDup xs /\ (forall x, In x xs -> In x (zd_keys (szd n))).
+Proof.
+  intros Hok Hpos HND xs c Hseq.
+  destruct (cc_init_inv (tree_rows n sl0 t) (szd n) (tree_rows_ok n sl0 t Hok) Hpos HND) as (I0 & T0 & S0 & N0 & O0).
+  fold (costs_of_tree n sl0 t) in *.
+  assert (R0 : sd_rel n [] (costs_of_tree n sl0 t)) by (intros j; rewrite S0; reflexivity).
+  destruct (remove_seq_tree n t Hpos xs sl0 [] _ c Hok I0 T0 R0 Hseq) as (T & I & N & O & R & ND & H).
+  cbn [app] in R. rewrite N0 in N. rewrite O0, tree_rows_flops in O.
+  split; [exact T|]. split; [exact I|]. split; [lia|]. split; [exact O|]. split; [exact R|]. split; [exact ND|].
+  intros x Hx. apply H, Hx.
+Qed.
